@@ -5,108 +5,8 @@
 From Coq Require Import Lia PeanoNat ZifyN ZifyNat ZifyBool.
 From Vise Require Import Bytes Errors Consts CacheModel StateModel NavModel BytesProofs.
 Local Open Scope N_scope.
-
-(* ================================================================================== *)
-(* Part 1 — specification                                                             *)
-(* ================================================================================== *)
-
-(* a position: navigation stack (entry node first, current node last) and page index *)
-Notation pos := (list bytes * N)%type (only parsing).
-
-Definition t_up : bytes := [95].     (* "_" *)
-Definition t_next : bytes := [62].   (* ">" *)
-Definition t_prev : bytes := [60].   (* "<" *)
-Definition t_top : bytes := [94].    (* "^" *)
-Definition t_same : bytes := [46].   (* "." *)
-
-(* The documented move table (navigation.texi, "Special node names" + "Navigation stack" +
-   "Entry point").
-     named node  push, page index 0
-     _           pop one level, page index 0; "Attempting to navigate up from the entry point
-                 node will fail": None on a one-element stack (and on an empty one)
-     ^           "Go to the topmost node": stack cut down to the entry node, page index 0.  The
-                 text does not say what happens to the index when the entry node is already
-                 current; DESIGN.md section 6 reads it as "stay" (no move happens), which is
-                 what is written here.  On the empty stack (no entry point yet: outside the
-                 text, "All VM executions require an entry point") it is the identity as well.
-     .           "Repeat the same node": identity
-     >           page index + 1 (SizeIdx is a uint16: 65535 + 1 = 0; the text gives no bound at
-                 this level, the page bound is the renderer's, C02); needs a current node
-     <           page index - 1; "Will fail if used on the first (or single) page"
-   "named node" is decided by the code's own symbol pattern valid_sym_b; the text's grammar of
-   node names differs from it (doc_name_b below, lemmas doc_name_differs). *)
-Definition nav_spec (p : pos) (t : bytes) : option pos :=
-  let '(path, idx) := p in
-  if bytes_eqb t t_up then
-    (if len path <=? 1 then None else Some (removelast path, 0))
-  else if bytes_eqb t t_top then
-    (if len path <=? 1 then Some (path, idx) else Some (firstn 1 path, 0))
-  else if bytes_eqb t t_same then Some (path, idx)
-  else if bytes_eqb t t_next then
-    (match path with [] => None | _ => Some (path, w16 (idx + 1)) end)
-  else if bytes_eqb t t_prev then
-    (match path with [] => None | _ => if idx =? 0 then None else Some (path, idx - 1) end)
-  else if valid_sym_b t then Some (path ++ [t], 0)
-  else None.
-
-(* The one place where applyTarget departs from the table: "_" at the entry node succeeds and
-   leaves an EMPTY stack (finding candidate K-C04-up-at-entry). *)
-Definition up_at_entry (p : pos) (t : bytes) : bool := bytes_eqb t t_up && (len (fst p) =? 1).
-
-(* the table the code implements: nav_spec with that one row changed *)
-Definition nav_code (p : pos) (t : bytes) : option pos :=
-  if up_at_entry p t then Some ([], 0) else nav_spec p t.
-
-(* history forms *)
-Fixpoint nav_fold (step : pos -> bytes -> option pos) (p : pos) (ms : list bytes) : option pos :=
-  match ms with
-  | [] => Some p
-  | m :: ms' => match step p m with Some p' => nav_fold step p' ms' | None => None end
-  end.
-
-(* no executed move of the list is a "_" at the entry node *)
-Fixpoint up_free (p : pos) (ms : list bytes) : bool :=
-  match ms with
-  | [] => true
-  | m :: ms' => negb (up_at_entry p m) &&
-                match nav_code p m with Some p' => up_free p' ms' | None => true end
-  end.
-
-Definition pos_of (st : state) : pos := (s_path st, s_idx st).
-
-(* the node grammar of the text: "must start with an alphabetical character. The rest of the
-   string may contain alphanumeric characters and underscore"; "_catch" is the builtin *)
-Definition is_alpha (c : N) : bool := ((65 <=? c) && (c <=? 90)) || ((97 <=? c) && (c <=? 122)).
-Definition doc_name_b (s : bytes) : bool :=
-  bytes_eqb s catch_sym ||
-  match s with c :: r => is_alpha c && forallb is_symchar r | [] => false end.
-
-(* invariants *)
-Definition nav_inv (st : state) (ca : cache) : Prop := cache_levels ca = len (s_path st) + 1.
-Definition wf_nav (st : state) (ca : cache) : Prop :=
-  nav_inv st ca /\ len (s_path st) <= MaxLevel + 1 /\ s_idx st < 65536.
-
-(* running a list of targets on the model, as the VM would on successive moves: the state and
-   cache are whatever applyTarget left (also after a failure); the log collects the targets
-   that returned without error, i.e. the moves executed *)
-Fixpoint nav_run (st : state) (ca : cache) (ts : list bytes) : state * cache * list bytes :=
-  match ts with
-  | [] => (st, ca, [])
-  | t :: ts' =>
-    let '(st', ca', _, r) := apply_target t st ca in
-    let '(st2, ca2, log) := nav_run st' ca' ts' in
-    (st2, ca2, match r with SOk => t :: log | _ => log end)
-  end.
-
-(* n successful pops *)
-Fixpoint pops (n : nat) (ca : cache) : cache :=
-  match n with
-  | O => ca
-  | S k => match cache_pop ca with Ok ca' => pops k ca' | _ => ca end
-  end.
-
-Definition is_spanic (r : stat) : bool := match r with SPanic _ => true | _ => false end.
-Definition status_of (x : state * cache * bytes * stat) : stat := snd x.
+From Vise Require Export NavSpec.
+Local Open Scope N_scope.
 
 (* ================================================================================== *)
 (* Part 2 — lemmas                                                                    *)
